@@ -63,7 +63,15 @@ try:
         env = dict(os.environ, VERIF_REPO=a.wt, VERIF_EVIDENCE_DIR="/tmp/verif_mutant_out/evidence", VERIF_REPLAY_DIR="/tmp/verif_mutant_out/replays")
         t0 = time.time()
         rc, out, err = sh(["/verif/check", c, "--tier", a.tier], env=env)
-        sigs = [l.strip().split(" count=")[0].replace("violation sig=", "") for l in out.splitlines() if l.strip().startswith("violation sig=")]
+        sigs = []
+        for l in out.splitlines():
+            l2 = l.strip()
+            tag = ""
+            if l2.startswith("[hostile]"):
+                l2 = l2[len("[hostile]"):].strip()
+                tag = "[hostile environment pass] "
+            if l2.startswith("violation sig="):
+                sigs.append(tag + l2.split(" count=")[0].replace("violation sig=", ""))
         viol_lines = [l for l in out.splitlines() if l.startswith("VIOLATION ")]
         res["checks"][c] = {"exit": rc, "violation_lines": len(viol_lines), "signatures": sigs[:12], "wall_s": round(time.time() - t0, 1)}
         print(f"check {c} ({a.tier}): exit={rc} VIOLATION lines={len(viol_lines)} wall={res['checks'][c]['wall_s']}s")
